@@ -61,16 +61,22 @@ HasKey(k) == k \in DOMAIN keys
 V(prop, what) == <<[l |-> l, prop |-> prop, what |-> what]>>
 When(c, v) == IF c THEN v ELSE <<>>
 
+\* a logged state whose buffers do not have the sizes of the modelled parameter set (K = 2) is compared
+\* as it is: the library may legitimately keep another traversal parameter, that is drift, not a verdict
+Shaped(b) == /\ DOMAIN b.th = 0..H-K-1 /\ DOMAIN b.retain = 0..RetainLen-1 /\ DOMAIN b.stack = 0..H
+             /\ DOMAIN b.stackLevels = 0..H /\ DOMAIN b.auth = 0..H-1 /\ DOMAIN b.keep = 0..(H \div 2)-1
+LV(b) == IF Shaped(b) THEN LiveView(b) ELSE [raw |-> b]
+
 \* family bookkeeping: first observation wins, later ones must agree
 FamCheckState(f, i, b) ==
-  When(f \in DOMAIN fams /\ i \in DOMAIN fams[f].stateAt /\ fams[f].stateAt[i] # LiveView(b),
+  When(f \in DOMAIN fams /\ i \in DOMAIN fams[f].stateAt /\ fams[f].stateAt[i] # LV(b),
        V("C08", "live state at this index differs from the state another object of the same seed had at it"))
 FamCheckSig(f, key, d) ==
   When(f \in DOMAIN fams /\ key \in DOMAIN fams[f].sigAt /\ fams[f].sigAt[key] # d,
        V("C08", "signature bytes differ from the signature another object of the same seed produced for this index and message"))
 FamPut(f, i, b, sigkey, d) ==
   LET old == IF f \in DOMAIN fams THEN fams[f] ELSE [stateAt |-> <<>>, sigAt |-> <<>>]
-      s1  == IF i \in DOMAIN old.stateAt THEN old.stateAt ELSE (i :> LiveView(b)) @@ old.stateAt
+      s1  == IF i \in DOMAIN old.stateAt THEN old.stateAt ELSE (i :> LV(b)) @@ old.stateAt
       g1  == IF sigkey = <<>> \/ sigkey \in DOMAIN old.sigAt THEN old.sigAt ELSE (sigkey :> d) @@ old.sigAt
   IN (f :> [stateAt |-> s1, sigAt |-> g1]) @@ fams
 
